@@ -312,6 +312,7 @@ class TKA:
         rec_sites = {}
         ok_states = {}
         edges_feasible = set()
+        threaded = set()
         iters = 0
         while work:
             iters += 1
@@ -332,6 +333,8 @@ class TKA:
                 val = None
                 if rv["r"] == "use" and rv["a"].get("k") in ("copy", "move"):
                     val = self._place_val(st, alias, rv["a"])
+                elif rv["r"] == "use" and rv["a"].get("k") == "const" and rv["a"].get("ty") == "bool" and "int" in rv["a"]:
+                    val = ("boolconst", bool(rv["a"]["int"]))   # `matches!` flag
                 elif rv["r"] == "copy_for_deref":
                     val = self._place_val(st, alias, rv["a"])
                 elif rv["r"] == "agg" and rv["ak"] == "adt" and norm_name(rv["adt"]) == TOKENKIND:
@@ -346,6 +349,9 @@ class TKA:
                 elif rv["r"] == "agg" and rv["ak"] == "adt" and rv["adt"].endswith("result::Result"):
                     if l == 0 and rv["variant"] == "Ok":
                         ok_states[(bb, i)] = (st.K, st.E(), st.C)
+                elif l == 0 and rv["r"] == "use" and rv["a"].get("k") in ("copy", "move") and b.locals[0]["ty"].startswith("std::result::Result<"):
+                    # `_0 = move _x` of a Result built elsewhere: may be Ok in this state
+                    ok_states[(bb, i)] = (st.K, st.E(), st.C)
                 if val is not None:
                     st.V[l] = val
                 else:
@@ -522,6 +528,27 @@ class TKA:
                     outs[s_] = st
             for s_, ns in outs.items():
                 edges_feasible.add((bb, s_))
+                # jump threading: a statement-free block that only switches on a flag whose value is a
+                # known literal in this state (`matches!(..)` lowers to that) is passed through, so the
+                # refinement made where the flag was set is not lost in the join
+                for _hop in range(4):
+                    blk2 = b.blocks[s_]
+                    t2 = blk2["term"]
+                    if t2["t"] != "switch" or any(x["s"] == "assign" for x in blk2["stmts"]):
+                        break
+                    d2 = t2["discr"]
+                    v2 = ns.V.get(d2["l"]) if d2.get("k") in ("copy", "move") and not d2["p"] else None
+                    if not (v2 and v2[0] == "boolconst"):
+                        break
+                    tgt = t2["otherwise"]
+                    for val_, b2_ in t2["targets"]:
+                        if val_ == int(v2[1]):
+                            tgt = b2_
+                    if tgt is None:
+                        break
+                    threaded.add(s_)
+                    edges_feasible.add((s_, tgt))
+                    s_ = tgt
                 old = states.get(s_)
                 if old is None:
                     states[s_] = ns.copy()
@@ -555,6 +582,11 @@ class TKA:
                 elif nm == "parser::Parser::get":
                     K_ok = self.FULL
                     E_ok = E_ok or stc.E() or "Eof" in stc.K
+                elif not nm.endswith("::from_residual") and t["target"] is not None and b.locals[0]["ty"].startswith("std::result::Result<") and nm not in PRIMS:
+                    # `_0 = g(..)` for a non-parser g (e.g. `res.map_err(..)` returned without `?`): may be Ok in the state of the call
+                    K_ok = stc.K if K_ok is None else (K_ok | stc.K)
+                    E_ok = E_ok or stc.E()
+                    C_ok = min(C_ok, stc.C)
         res = {"states": states, "sites": rec_sites, "summary": (K_ok, E_ok, C_ok) if K_ok is not None else None, "feasible": edges_feasible, "body": b, "ok_states": ok_states}
         self.results[key] = res
         return res
